@@ -507,7 +507,7 @@ class System(ListeningSystem):
             if params[0] is None:
                 for driver in self.drivers:
                     driver.set_slope_delayer(delayer)
-                    return None
+                return None
             else:
                 self.drivers[params[0]].set_slope_delayer(delayer)
                 return self.byte_ack
